@@ -39,17 +39,19 @@ Section Regen.
     match prev_decl before (fst m) (snd m) with
     | Some p => let doc := doc_or_default (fst m) (snd m) (d_doc p) in
                 {| d_kind := KMethod (fst m) (snd m); d_doc := doc; d_rawdoc := doc; d_body := d_body p;
+                   d_results := d_results p;   (* the previous declaration's result list, names included *)
                    d_src := method_src (fst m) (snd m) (d_body p) |}
     | None => let doc := doc_or_default (fst m) (snd m) "" in
               {| d_kind := KMethod (fst m) (snd m); d_doc := doc; d_rawdoc := doc; d_body := stub_body (fst m) (snd m);
+                 d_results := "";
                  d_src := method_src (fst m) (snd m) (stub_body (fst m) (snd m)) |}
     end.
   Definition gen_access (a : string) : decl :=
-    {| d_kind := KMethod "Resolver" a; d_doc := ""; d_rawdoc := ""; d_body := ""; d_src := access_src a |}.
+    {| d_kind := KMethod "Resolver" a; d_doc := ""; d_rawdoc := ""; d_body := ""; d_results := ""; d_src := access_src a |}.
   Definition gen_struct (s : string) : decl :=
-    {| d_kind := KType s; d_doc := ""; d_rawdoc := ""; d_body := ""; d_src := struct_src s |}.
+    {| d_kind := KType s; d_doc := ""; d_rawdoc := ""; d_body := ""; d_results := ""; d_src := struct_src s |}.
   Definition root_decl : decl :=
-    {| d_kind := KType "Resolver"; d_doc := ""; d_rawdoc := ""; d_body := ""; d_src := "type Resolver struct{}" |}.
+    {| d_kind := KType "Resolver"; d_doc := ""; d_rawdoc := ""; d_body := ""; d_results := ""; d_src := "type Resolver struct{}" |}.
 
   (** one regenerated file: root type (single-file layout), resolvers, accessors, wrapper structs; the previous
       file's imports; what was neither carried over nor an import in the warning block *)
